@@ -271,6 +271,7 @@ def check_case(case, ctx):
     from cirbo.synthesis.generation.helpers import GenerationBasis
     from cirbo.synthesis.generation import arithmetics as ar
     A.CUR['case'] = case
+    A.CUR['omit_defaults'] = (int(case.get('rseed', 0) or 0) >> 3) % 2 == 1
     rng = random.Random(case['rseed'])
     f = case['func']
     bname = case.get('basis')
@@ -285,7 +286,7 @@ def check_case(case, ctx):
         if f.startswith('generate_'):
             for rep in range(2):   # the same request twice; the first result is edited by its owner in between
                 if f == 'generate_sum_n_bits':
-                    g = ar.generate_sum_n_bits(case['n'], basis=basis, big_endian=be)
+                    g = ar.generate_sum_n_bits(case['n'], basis=basis, **A.be_kwargs(be))
                 elif f == 'generate_sum_weighted_bits_efficient':
                     g = ar.generate_sum_weighted_bits_efficient(case['weights'], basis=basis)
                 else:
@@ -318,22 +319,22 @@ def check_case(case, ctx):
             elif f == 'add_sum3':
                 ar.add_sum3(c, ops[0])
             elif f == 'add_sum_n_bits':
-                ar.add_sum_n_bits(c, ops[0], basis=basis, big_endian=be)
+                ar.add_sum_n_bits(c, ops[0], basis=basis, **A.be_kwargs(be))
             elif f == 'add_sum_n_bits_easy':
-                ar.add_sum_n_bits_easy(c, ops[0], big_endian=be)
+                ar.add_sum_n_bits_easy(c, ops[0], **A.be_kwargs(be))
             elif f == 'add_sum_n_weighted_bits':
                 ar.add_sum_n_weighted_bits(c, list(zip(case['weights'], ops[0])), basis=basis)
             elif f == 'add_sum_n_weighted_bits_naive':
                 ar.add_sum_n_weighted_bits_naive(c, list(zip(case['weights'], ops[0])), basis=basis)
             elif f == 'add_sum_two_numbers':
-                ar.add_sum_two_numbers(c, ops[0], ops[1], big_endian=be)
+                ar.add_sum_two_numbers(c, ops[0], ops[1], **A.be_kwargs(be))
             elif f == 'add_sum_two_numbers_with_shift':
                 sh = case['shift']
                 n0 = len(case['operands'][0])
                 ctx.count('shift:' + ('above' if sh > n0 else ('equal' if sh == n0 else 'below')))
-                ar.add_sum_two_numbers_with_shift(c, sh, ops[0], ops[1], big_endian=be)
+                ar.add_sum_two_numbers_with_shift(c, sh, ops[0], ops[1], **A.be_kwargs(be))
             elif f == 'add_sum_pow2_m1':
-                ar.add_sum_pow2_m1(c, ops[0], basis=basis, big_endian=be)
+                ar.add_sum_pow2_m1(c, ops[0], basis=basis, **A.be_kwargs(be))
     except Exception as e:
         ctx.unexpected(f, e, case)
     key = '%s|%s|%r|%s|%s|%s|%r' % (f, case.get('n'), case.get('weights'), bname, be, case.get('mode'),
